@@ -37,10 +37,15 @@ def bounds(tier):
             "grids": ["irregular", "int", "dyadic", "ulp", "uint", "float32"], "intervals": len(BASE_INTERVALS) + 1}
 
 
-def intervals(seed):
+def intervals(seed, tier="quick"):
     rnd = random.Random(seed * 31 + 5)
     a, b = sorted([F(rnd.randint(0, 40), 40), F(rnd.randint(0, 40), 40)])
-    return BASE_INTERVALS + [(a, b)]
+    out = BASE_INTERVALS + [(a, b)]
+    if tier == "thorough":  # every pair of eighths, and of sixths (the k/N grids of the enumerated class sizes)
+        for d in (8, 6):
+            out += [(F(i, d), F(j, d)) for i in range(d + 1) for j in range(i, d + 1)]
+        out = list(dict.fromkeys(out))
+    return out
 
 
 def work(tier, seed):
@@ -70,7 +75,7 @@ def run(item, ctx, tier, seed):
     dt = {"uint": np.uint8, "float32": np.float32}.get(gkind)
     cross = any(a > 0 and c > 0 for a, c in blocks)
     anytie = any(a + c > 1 for a, c in blocks)
-    ivs = intervals(seed)
+    ivs = intervals(seed, tier)
     TOL = 1e-9
     for cfg in ot.CFGS:
         sc, ec = cfg
